@@ -12,6 +12,8 @@ var (
 	RemoveFn    = os.Remove
 )
 
-func WriteFile(name string, data []byte, perm os.FileMode) error { return WriteFileFn(name, data, perm) }
-func ReadFile(name string) ([]byte, error)                      { return ReadFileFn(name) }
-func Remove(name string) error                                  { return RemoveFn(name) }
+func WriteFile(name string, data []byte, perm os.FileMode) error {
+	return WriteFileFn(name, data, perm)
+}
+func ReadFile(name string) ([]byte, error) { return ReadFileFn(name) }
+func Remove(name string) error             { return RemoveFn(name) }
